@@ -738,12 +738,14 @@ def _simstruct(sim):
     s = struct(sim)
 
     def strip(x):
+        drop = ('time', 'runtime_at_cycle', 'log', 'file_dir', '_dict_grid')
         if x[0] == 'dict':
             return ('dict', {k: strip(v) for k, v in x[1].items()
-                             if k not in ('time', 'runtime_at_cycle', 'log',
-                                          'file_dir', '_dict_grid')})
+                             if k not in drop},
+                    [k for k in x[2] if k not in drop])
         if x[0] == 'obj':
-            return ('obj', x[1], strip(('dict', x[2]))[1])
+            d = strip(('dict', x[2], x[3]))
+            return ('obj', x[1], d[1], d[2])
         return x
     return strip(s)
 
